@@ -53,7 +53,13 @@ def run_case(spec, lines, out):
         prm_objs.append(prms)
         fresh = cls(**kw, **prms)
         rec = Recorder(fresh)
-        sf = fresh.sf
+        try:
+            sf = fresh.sf
+        except Exception:
+            # a fresh object with these parameters cannot build its table
+            prm_objs[-1] = None
+            emit(f"psetbad {k}", "ok")
+            continue
         min_diag = min(min_diag, float(np.min(np.abs(np.moveaxis(sf.diagonal(0, 0, 1), -1, 0)))))
         for (q, c) in sorted(rec.calls, key=lambda kk: (kk[1], kk[0])):
             ages, vals = rec.calls[(q, c)]
@@ -116,6 +122,13 @@ def run_case(spec, lines, out):
                 except Exception:
                     emit("h_compute", "err")
                 # a freshly built stock with the same current inputs
+                if prm_objs[k_cur] is None:
+                    try:
+                        cls(**kw, **given(k_cur)).sf
+                        emit("note fresh_unexpectedly_usable", "violated")
+                    except Exception:
+                        emit("note fresh err", "ok")
+                    continue
                 lmf = cls(**kw, **prm_objs[k_cur])
                 if kind == "idsm":
                     f = InflowDrivenDSM(dims=dims, lifetime_model=lmf, time_letter="t",
